@@ -64,6 +64,19 @@
 (* its answer: the spec has no notion of a consumed response, so ledger,     *)
 (* fills, ids and notifications of an abandoned OpenOrder are those of an    *)
 (* answered one (the harness abandons requests; Trace_MockExchange judges).  *)
+(* Requests that are QUEUED TOGETHER (a burst: several requests sit in the   *)
+(* request channel when the exchange task is polled) are handled one after   *)
+(* the other in queue order - `run` takes them from a FIFO mpsc channel, one  *)
+(* `recv` per loop iteration - so a burst is nothing but several steps of     *)
+(* Next in a row: the ledger semantics do not change, every intermediate      *)
+(* ledger exists, and the notification history shows it (one balance and one  *)
+(* trade notification PER accepted order, the balance notification carrying   *)
+(* the balance after THAT order: Notif11, NotifTracksInv).  Only the          *)
+(* OBSERVATION differs (responses and history are seen after the whole        *)
+(* burst): Trace_MockExchange folds the spec's own actions over the burst.    *)
+(* Open for a burst: how notifications of DIFFERENT kinds interleave (the     *)
+(* balance notifications among themselves and the trade notifications among   *)
+(* themselves are in queue order; the projection re-pairs them).              *)
 (* Environment assumptions: initial balances have total = free (the code    *)
 (* asserts it: only market orders exist) and every asset of a listed        *)
 (* instrument has a balance entry (the code expects it).                    *)
@@ -201,12 +214,18 @@ Reject(r, tt, why) == /\ up /\ Tick(r, tt)
                   /\ last' = Resp(r, "rej", why, -1, 0)
                   /\ res' = NoRes
 
+\* the ledger an accepted order leaves (state functions, so that a trace checker can name what
+\* differs; Accept below is the only action that uses them)
+AfterBal(r)            == Debit(bal, Spent(r), Need(r))
+AfterTrades(r, id, tt) == Append(trades, Fill(id, r, tt))                        \* ack_trade
+AfterNotif(r, id, tt)  == notif \o <<BalNotif(Spent(r), AfterBal(r)[Spent(r)]), FillNotif(Fill(id, r, tt))>>
+
 Accept(r, id, tt) == /\ up /\ id \in FreshIds
                  /\ Tick(r, tt)
-                 /\ bal' = Debit(bal, Spent(r), Need(r))
+                 /\ bal' = AfterBal(r)
                  /\ nextId' = id + 1
-                 /\ trades' = Append(trades, Fill(id, r, tt))                     \* ack_trade
-                 /\ notif' = notif \o <<BalNotif(Spent(r), bal'[Spent(r)]), FillNotif(Fill(id, r, tt))>>
+                 /\ trades' = AfterTrades(r, id, tt)
+                 /\ notif' = AfterNotif(r, id, tt)
                  /\ last' = Resp(r, "ok", "-", id, r.q)
                  /\ res' = NoRes
                  /\ UNCHANGED <<world, orders, up>>
@@ -309,7 +328,24 @@ Notif11Inv == /\ Len(notif) = 2 * Len(trades)
               /\ \A i \in DOMAIN trades : /\ notif[2 * i - 1].k = "balance"
                                           /\ notif[2 * i] = FillNotif(trades[i])
 
-Inv == TypeOK /\ NonNegative /\ FreshIdsInv /\ Notif11Inv
+\* the balance notifications follow the ledger, order by order: the one of fill i names the asset
+\* that fill spent; the latest one of an asset carries that asset's present balance, and the
+\* earlier ones of that asset the balance before the next order that spent it (nothing is ever
+\* credited: each differs from its successor by exactly what that order needed)
+SpentOf(f)  == IF f.side = "buy" THEN Quote(f.instr) ELSE Base(f.instr)
+NeedOf(f)   == LET m == IF f.q < 0 THEN -f.q ELSE f.q IN
+               IF f.side = "buy" THEN f.p * m * (100 + fee) ELSE m * (100 + fee)
+NotifTracksInv ==
+  (Len(notif) = 2 * Len(trades)) =>
+    \A i \in DOMAIN trades :
+      LET nb    == notif[2 * i - 1]
+          later == {j \in DOMAIN trades : j > i /\ SpentOf(trades[j]) = SpentOf(trades[i])}
+      IN /\ nb.asset = SpentOf(trades[i]) /\ nb.total = nb.free
+         /\ IF later = {} THEN nb.free = bal[nb.asset].free
+            ELSE LET j == CHOOSE j \in later : \A k \in later : j <= k
+                 IN nb.free = notif[2 * j - 1].free + NeedOf(trades[j])
+
+Inv == TypeOK /\ NonNegative /\ FreshIdsInv /\ Notif11Inv /\ NotifTracksInv
 
 \* ---- step formulas over (ledger, ledger', last', res') ----
 Served   == last'.req
